@@ -684,6 +684,28 @@ func genC07(tier string, seed uint64) []genOut {
 	if tier == "thorough" {
 		nsd = 20
 	}
+	// one doc-value chunk of more than 1 MiB (280 documents, one 4000-byte term each)
+	{
+		r := NewRng(seed, "C07-bigdv", 0)
+		cb := newCaseBuilder(caseID("C07big", seed, 0), r)
+		tag := []byte("tag")
+		cb.u.fields = [][]byte{[]byte("_id"), tag}
+		cb.u.dvOK = map[string]bool{"tag": true}
+		docs := make([]Doc, 280)
+		for d := range docs {
+			t := make([]byte, 4000)
+			for k := range t {
+				t[k] = byte('a' + (d*7+k*13)%23)
+			}
+			copy(t, fmt.Sprintf("%04d", d))
+			docs[d] = Doc{{Name: tag, Length: 1, DV: true, Terms: []TermOcc{{Term: t, Freq: 1}}}}
+		}
+		sg := cb.addBuild(docs, 1024, "hook")
+		cb.q("dv", itoa(sg), hx(tag), intList([]int{0, 279, 140, 1}))
+		mg := cb.addMerge([]MergeIn{{Seg: sg, Drops: []uint32{5, 6}}}, 1024, "hook", 4096)
+		cb.q("dv", itoa(mg), hx(tag), intList([]int{0, 277, 5, 4}))
+		out = append(out, genOut{cb.c, true, "big-dv-chunk"})
+	}
 	out = append(out, genSparseDV("C07", seed, nsd, false, false)...)
 	out = append(out, genSparseDV("C07", seed+1000003, nsd, true, false)...)
 	return out
